@@ -97,6 +97,7 @@ type Exec struct {
 	assertSeen map[string]bool
 	autoRange  map[*ssa.BasicBlock]*rangeInv
 	ghostKeys  map[string]string
+	pendingMapHavoc []mapHavoc
 	private    map[*ssa.Alloc]bool
 	pendingAssume []*CallAssert
 	paramNames map[string]bool
@@ -1052,6 +1053,18 @@ func (ex *Exec) havocLoopMemory(li *loopInfo) {
 		c.assume(fmt.Sprintf("(forall ((%s Int)) (! %s :pattern ((select %s %s))))", a,
 			or(append(in, eq(app("select", nw, a), app("select", old, a)))...), nw, a))
 	}
+	for _, mh := range ex.pendingMapHavoc {
+		for _, k := range ex.mapKeysOf(mh.mt) {
+			if wholeKeys[k] {
+				continue
+			}
+			old := c.memRaw(ex.cur, k)
+			inner := memSorts[k][len("(Array Int ") : len(memSorts[k])-1]
+			nv := c.declConst(c.fresh("hmap"), inner)
+			ex.cur.m[k] = c.define("mem", memSorts[k], app("store", old, mh.ref, nv))
+		}
+	}
+	ex.pendingMapHavoc = nil
 	var ks []string
 	for k := range wholeKeys {
 		ks = append(ks, k)
@@ -1118,8 +1131,39 @@ func (ex *Exec) loopCallRegions(cc *ssa.CallCommon, inLoop func(ssa.Value) bool)
 	var env *Env
 	for _, m := range fc.Modifies {
 		switch {
-		case m == "everything" || strings.HasPrefix(m, "typemem(") || strings.HasPrefix(m, "map("):
+		case m == "everything":
 			return nil, nil, nil, false
+		case strings.HasPrefix(m, "typemem("):
+			t := ex.v.lookupType(ex.v.pkgOf(fc.Pkg), strings.TrimSuffix(strings.TrimPrefix(m, "typemem("), ")"))
+			if t == nil {
+				return nil, nil, nil, false
+			}
+			has = true
+			for _, cl := range ex.c.cells("0", t) {
+				for i, so := range ex.c.leafSorts(cl.t) {
+					ex.c.memGet(ex.cur, cl.t, i, so)
+					rest = append(rest, ex.c.memName(cl.t, i))
+				}
+			}
+		case strings.HasPrefix(m, "map("):
+			// the entry of one (loop-invariant) map reference
+			if env == nil {
+				env = ex.loopCallEnv(fc, fn, cc, inLoop)
+			}
+			e, err := ParseExpr(strings.TrimSuffix(strings.TrimPrefix(m, "map("), ")"))
+			if err != nil {
+				return nil, nil, nil, false
+			}
+			mv, err := env.Value(e)
+			if err != nil || mv.K != KRef || mv.T == "unavailable" {
+				return nil, nil, nil, false
+			}
+			mt, isMap := mv.Typ.Underlying().(*types.Map)
+			if !isMap {
+				return nil, nil, nil, false
+			}
+			has = true
+			ex.pendingMapHavoc = append(ex.pendingMapHavoc, mapHavoc{mt, mv.T})
 		case strings.HasPrefix(m, "fieldmem("):
 			has = true
 			for k, ids := range ex.fieldRegion(ex.v.pkgOf(fc.Pkg), m) {
@@ -1135,25 +1179,37 @@ func (ex *Exec) loopCallRegions(cc *ssa.CallCommon, inLoop func(ssa.Value) bool)
 			}
 		default:
 			if env == nil {
-				var args []Val
-				for _, a := range cc.Args {
-					if inLoop(a) {
-						if t, ok := ex.staticAddr(a, inLoop); ok {
-							args = append(args, refVal(t, a.Type()))
-							continue
-						}
-						args = append(args, Val{K: KLit, T: "unavailable"})
-						continue
-					}
-					args = append(args, ex.val(a))
-				}
-				env = &Env{c: ex.c, v: ex.v, vars: map[string]Val{}, mem: ex.cur, pkg: ex.v.pkgOf(fc.Pkg)}
-				ex.bindParams(env, fn, cc, Val{}, args)
+				env = ex.loopCallEnv(fc, fn, cc, inLoop)
 			}
 			cells = append(cells, ex.lvalueCells(env, m, fc.Full())...)
 		}
 	}
 	return regs, rest, cells, has
+}
+
+type mapHavoc struct {
+	mt  *types.Map
+	ref Term
+}
+
+// loopCallEnv binds the callee's parameters to the loop-invariant arguments of
+// a call inside a loop (arguments computed inside the loop are unavailable).
+func (ex *Exec) loopCallEnv(fc *FuncContract, fn *ssa.Function, cc *ssa.CallCommon, inLoop func(ssa.Value) bool) *Env {
+	var args []Val
+	for _, a := range cc.Args {
+		if inLoop(a) {
+			if t, ok := ex.staticAddr(a, inLoop); ok {
+				args = append(args, refVal(t, a.Type()))
+				continue
+			}
+			args = append(args, Val{K: KLit, T: "unavailable"})
+			continue
+		}
+		args = append(args, ex.val(a))
+	}
+	env := &Env{c: ex.c, v: ex.v, vars: map[string]Val{}, mem: ex.cur, pkg: ex.v.pkgOf(fc.Pkg)}
+	ex.bindParams(env, fn, cc, Val{}, args)
+	return env
 }
 
 // staticAddr: the address denoted by v if it is computed from loop-invariant
